@@ -22,7 +22,8 @@ EXTENDS Naturals, Sequences, FiniteSets, TLC
 
 CONSTANTS Ex, NConn, MaxRetry,
           BugEarlyIdle,    \* sensitivity: a connection whose read failed goes back to the idle set
-          BugLateDialLeak  \* sensitivity: a dial that completes after Close is dropped without closing the connection
+          BugLateDialLeak, \* sensitivity: a dial that completes after Close is dropped without closing the connection
+          BugStrayDial     \* sensitivity: a dial whose caller has left drops the connection instead of releasing it
 
 Conn == 1..NConn
 NoG == [st |-> "none", ex |-> 0, ok |-> FALSE, got |-> 0]
@@ -110,7 +111,7 @@ Deliver(c) ==
                ELSE /\ Finish(e, IF dial[c].got = 1 THEN "closed" ELSE "dialerr") /\ UNCHANGED <<econn, fresh, wk, box>>
             /\ dial' = [dial EXCEPT ![c].st = "end"]
        ELSE \* the caller returned on its context: a connection that was dialled is released as idle
-            /\ dial' = [dial EXCEPT ![c].st = IF dial[c].ok THEN "rel1" ELSE "end"]
+            /\ dial' = [dial EXCEPT ![c].st = IF dial[c].ok /\ ~BugStrayDial THEN "rel1" ELSE "end"]
             /\ UNCHANGED <<econn, fresh, wk, box, pc, res>>
     /\ UNCHANGED <<tclosed, conns, idle, serving, rclosed, sock, aborted, pipe, dirty, ndial, retry, ctxdone>>
 
@@ -207,6 +208,9 @@ Inv_C06_IdleNotServing == \A c \in idle : ~Active(c)
 \* C18: when everything has run down after Close, no socket of the transport is open
 Quiet == \A c \in Conn : dial[c].st \in {"none", "end"} /\ wk[c].st = "none"
 Inv_C18_NoLeak == (tclosed /\ Quiet) => \A c \in Conn : sock[c] # "open"
+\* C06: when everything has run down, every connection that is still open is in the idle set (it can be
+\* taken by the next exchange and its idle timer runs); nothing is open and forgotten
+Inv_C06_NoStray == (Quiet /\ \A e \in Ex : pc[e] \notin {"get", "dialwait", "xwait"}) => \A c \in Conn : sock[c] = "open" => c \in idle
 Busy(e) == pc[e] \in {"get", "dialwait", "xwait"}
 C18_FailFast == \A e \in Ex : (tclosed /\ Busy(e)) ~> ~Busy(e)
 =============================================================================
